@@ -133,7 +133,11 @@ impl Core {
                 .get_parent_block(&parent)
                 .await?
                 .expect("We should have all the ancestors by now");
-            to_commit.push_front(ancestor.clone());
+            // Stop at the last committed block (or genesis): it has already been delivered.
+            if ancestor.round <= self.last_committed_round {
+                break;
+            }
+            to_commit.push_back(ancestor.clone());
             parent = ancestor;
         }
         to_commit.push_front(block.clone());
